@@ -49,7 +49,10 @@ Causes == {"none", "badsig", "expired", "missing", "unauth", "badlinksig", "thr"
            \* two steps, the SECOND one's link is missing (its functionary is the first step's, or another one)
            "missing_second_same", "missing_second_other",
            \* the two links of a threshold-2 step disagree AND were recorded with different hash algorithms
-           "disagree_alg"}
+           "disagree_alg",
+           \* threshold 2: the second functionary's file carries an invalid entry of his and a valid one of the first
+           \* functionary's - one functionary's signature twice is still one functionary
+           "badplusother"}
 
 Sub(exp) ==
   LayoutD(<<GoodSig("k1")>>, exp, <<"k3">>,
@@ -65,8 +68,8 @@ Layout(cause, insps) ==
           IF cause = "expired" THEN -10 ELSE 1000,
           <<"k1", "k2", "k3">>,
           <<StepD("s1",
-                  IF cause \in {"thr", "disagree", "disagree_alg"} \cup Surplus THEN <<"k1", "k2">> ELSE <<"k1">>,
-                  IF cause \in {"thr", "disagree", "disagree_alg"} THEN 2 ELSE 1,
+                  IF cause \in {"thr", "disagree", "disagree_alg", "badplusother"} \cup Surplus THEN <<"k1", "k2">> ELSE <<"k1">>,
+                  IF cause \in {"thr", "disagree", "disagree_alg", "badplusother"} THEN 2 ELSE 1,
                   << >>,
                   CASE cause \in {"rule", "subok_rule", "rule_first_of_two"} -> <<Simple("DISALLOW", <<"*">>)>>
                     [] cause = "rule_match_insp" -> <<MatchR(<<"*">>, "P", "i1"), MatchR(PA, "M", "i1"), Simple("DISALLOW", <<"*">>)>>
@@ -83,6 +86,8 @@ Files(cause) ==
     [] cause = "badlinksig" -> <<Entry(<< >>, "s1", "k1", LinkD("s1", <<BadSig("k1")>>, {}, ProdA))>>
     [] cause = "disagree"   -> <<Entry(<< >>, "s1", "k1", LinkD("s1", <<GoodSig("k1")>>, {}, ProdA)),
                                  Entry(<< >>, "s1", "k2", LinkD("s1", <<GoodSig("k2")>>, {}, {Art(PA, "h2")}))>>
+    [] cause = "badplusother" -> <<Entry(<< >>, "s1", "k1", LinkD("s1", <<GoodSig("k1")>>, {}, ProdA)),
+                                   Entry(<< >>, "s1", "k2", LinkD("s1", <<BadSig("k2"), GoodSig("k1")>>, {}, ProdA))>>
     [] cause = "disagree_alg" -> <<Entry(<< >>, "s1", "k1", LinkD("s1", <<GoodSig("k1")>>, {}, ProdA)),
                                    Entry(<< >>, "s1", "k2", LinkD("s1", <<GoodSig("k2")>>, {}, {Art(PA, "s512:h2")}))>>
     [] cause = "subfail"    -> <<Entry(<< >>, "s1", "k1", Sub(-10)),
